@@ -418,4 +418,96 @@ theorem solve_lu_correct (n : Nat) (A : Mat) (b : Vec) (h : (getrf n A).fail = f
   simp only [hpb, hσ] at this
   exact this
 
+/-! ## lazily consumed solve expressions (`solve.hpp`: `matrix_row_optimizer`, `matrix_vector_prod_optimizer`) -/
+
+/-- `unit_vector(n, i)` -/
+def unitVec (i : Nat) : Vec := fun k => if k = i then 1 else 0
+
+/-- **`row(solve(A,B,tag,left), i) = prod(trans(B), solve(A, e_i, tag, right))`** — the rewrite of
+`matrix_row_optimizer<matrix_matrix_solve<…,left>>`, for any system matrix `T`: if `y T = e_i`
+(`y` is what the *right*-sided vector solve of the unit vector returns) and `T X = B`, then
+`Bᵀ y` is row `i` of `X`.  Every size, every number of right-hand sides. -/
+theorem row_of_left_solve (n m : Nat) (T X B : Mat) (y : Vec) (i : Nat) (hi : i < n)
+    (hy : ∀ l, l < n → vecMul n y T l = unitVec i l)
+    (hX : ∀ j k, j < n → k < m → mul n T X j k = B j k) :
+    ∀ k, k < m → mulVec n (transpose B) y k = X i k := by
+  intro k hk
+  unfold mulVec transpose
+  have h1 : sum n (fun j => B j k * y j) = sum n (fun j => sum n (fun l => y j * T j l * X l k)) := by
+    apply sum_congr; intro j hj
+    rw [← hX j k hj hk]; unfold mul
+    rw [← sum_mul_right]
+    apply sum_congr; intro l _; ring
+  have h2 : sum n (fun l => sum n (fun j => y j * T j l * X l k)) = sum n (fun l => unitVec i l * X l k) := by
+    apply sum_congr; intro l hl
+    rw [sum_mul_right, ← hy l hl]; rfl
+  rw [h1, sum_comm, h2, sum_single hi]
+  · simp [unitVec]
+  · intro l _ hne; simp [unitVec, hne]
+
+/-- instance for the triangular tags on the model: the lazily computed row (`trsv` from the right of
+the unit vector, then the product with `Bᵀ`) is row `i` of what `trsm` from the left returns. -/
+theorem lazy_row_left_trsm (t : Tri) (n m : Nat) (A B : Mat) (i : Nat) (hi : i < n)
+    (h : triSingular t n A = false) :
+    ∀ k, k < m → mulVec n (transpose B) (trsv t false n A (unitVec i)) k = trsm t true n m A B i k :=
+  row_of_left_solve n m (triPart t A) (trsm t true n m A B) B (trsv t false n A (unitVec i)) i hi
+    (fun l hl => trsv_correct_right t n A (unitVec i) h l hl)
+    (fun j k hj hk => trsm_correct_left t n m A B h j k hj hk)
+
+/-- the hypothesis `y T = e_i` (the *right*-sided unit-vector solve) cannot be replaced by `T y = e_i`
+(the left-sided one): witness `T = [[2,0],[1,2]]`, `B = I`, `X = T⁻¹`, `y = T⁻¹ e_0 = (1/2, -1/4)`;
+`(Bᵀ y)_1 = -1/4` but `X 0 1 = 0`. -/
+theorem row_of_left_solve_wrong_side_witness :
+    ∃ (T X B : Mat) (y : Vec),
+      (∀ l, l < 2 → mulVec 2 T y l = unitVec 0 l) ∧
+      (∀ j k, j < 2 → k < 2 → mul 2 T X j k = B j k) ∧
+      mulVec 2 (transpose B) y 1 ≠ X 0 1 := by
+  refine ⟨fun i j => if i = 1 ∧ j = 0 then 1 else if i = j then 2 else 0,
+          fun i j => if i = 1 ∧ j = 0 then -1/4 else if i = j then 1/2 else 0,
+          ident, fun k => if k = 0 then 1/2 else -1/4, ?_, ?_, ?_⟩
+  · intro l hl
+    have : l = 0 ∨ l = 1 := by omega
+    rcases this with rfl | rfl <;> norm_num [mulVec, sum, unitVec]
+  · intro j k hj hk
+    have hj' : j = 0 ∨ j = 1 := by omega
+    have hk' : k = 0 ∨ k = 1 := by omega
+    rcases hj' with rfl | rfl <;> rcases hk' with rfl | rfl <;> norm_num [mul, sum, ident]
+  · norm_num [mulVec, sum, transpose, ident]
+
+/-- **`prod(solve(A,B,tag,right), c) = prod(B, solve(A,c,tag,left))`**
+(`matrix_vector_prod_optimizer<matrix_matrix_solve<…,right>>`): if `X T = B` and `T y = c` then `X c = B y`. -/
+theorem prod_of_right_solve (n m : Nat) (T X B : Mat) (y c : Vec)
+    (hy : ∀ l, l < n → mulVec n T y l = c l)
+    (hX : ∀ k j, k < m → j < n → mul n X T k j = B k j) :
+    ∀ k, k < m → mulVec n X c k = mulVec n B y k := by
+  intro k hk
+  unfold mulVec
+  have h1 : sum n (fun l => X k l * c l) = sum n (fun l => sum n (fun j => X k l * T l j * y j)) := by
+    apply sum_congr; intro l hl
+    rw [← hy l hl]; unfold mulVec
+    rw [← sum_mul_left]
+    apply sum_congr; intro j _; ring
+  have h2 : sum n (fun j => sum n (fun l => X k l * T l j * y j)) = sum n (fun j => B k j * y j) := by
+    apply sum_congr; intro j hj
+    rw [sum_mul_right, ← hX k j hk hj]; rfl
+  rw [h1, sum_comm, h2]
+
+/-- **`prod(solve(A,B,tag,left), c) = solve(A, prod(B,c), tag, left)`**
+(`matrix_vector_prod_optimizer<matrix_matrix_solve<…,left>>`) for the triangular tags on the model. -/
+theorem prod_of_left_trsm (t : Tri) (n m : Nat) (A B : Mat) (c : Vec) (h : triSingular t n A = false) :
+    ∀ i, i < n → mulVec m (trsm t true n m A B) c i = trsv t true n A (mulVec m B c) i := by
+  apply trsv_unique t n A (mulVec m B c) _ h
+  intro i hi
+  unfold mulVec
+  have h1 : sum n (fun l => triPart t A i l * sum m (fun k => trsm t true n m A B l k * c k))
+      = sum n (fun l => sum m (fun k => triPart t A i l * trsm t true n m A B l k * c k)) := by
+    apply sum_congr; intro l _
+    rw [← sum_mul_left]
+    apply sum_congr; intro k _; ring
+  have h2 : sum m (fun k => sum n (fun l => triPart t A i l * trsm t true n m A B l k * c k))
+      = sum m (fun k => B i k * c k) := by
+    apply sum_congr; intro k hk
+    rw [sum_mul_right, ← trsm_correct_left t n m A B h i k hi hk]; rfl
+  rw [h1, sum_comm, h2]
+
 end SharkVerif.C02
